@@ -1,7 +1,13 @@
 /-! C11 — the property-level reference: what a compiler command line *says* about macro
 definitions, include directories and forced includes.  Written from the property text and the
-gcc manual (`-D name`, `-Dname`, `-I dir`, `-Idir`, `-isystem dir`, `-isystemdir`,
+gcc manual (`-D name`, `-Dname`, `-U name`, `-Uname`, `-I dir`, `-Idir`, `-isystem dir`, `-isystemdir`,
 `-include file`, `-includefile`), not from the code.
+
+"Exactly the macro definitions given with -D, in command-line order" is read the way a compiler reads a
+command line (GCC manual, Preprocessor Options: "-D and -U options are processed in the order they are
+given on the command line"): the definitions **in force** after processing `-D` / `-U` left to right —
+`-U name` cancels every earlier definition of `name` (`name`, `name=value`, `name(params)=value`), a later
+`-D name` defines it again.  A command line without `-U` is read exactly as before.
 
 `extract argv`: scan left to right; an argument that is exactly a modelled flag takes the next
 argument as its value (whatever it looks like); an argument that starts with a modelled flag
@@ -12,7 +18,7 @@ namespace CbiVerif.Extract
 
 abbrev Arg := List Char
 
-inductive Flag | D | I | isystem | include
+inductive Flag | D | I | isystem | include | U
 deriving DecidableEq, Repr, Inhabited
 
 def Flag.text : Flag → Arg
@@ -20,8 +26,9 @@ def Flag.text : Flag → Arg
   | .I => ['-', 'I']
   | .isystem => ['-', 'i', 's', 'y', 's', 't', 'e', 'm']
   | .include => ['-', 'i', 'n', 'c', 'l', 'u', 'd', 'e']
+  | .U => ['-', 'U']
 
-def allFlags : List Flag := [.D, .I, .isystem, .include]
+def allFlags : List Flag := [.D, .I, .isystem, .include, .U]
 
 /-- `stripPrefix p a = some r` iff `a = p ++ r` -/
 def stripPrefix : Arg → Arg → Option Arg
@@ -46,14 +53,23 @@ def readingFrom : List Flag → Arg → Reading
 
 def reading (a : Arg) : Reading := readingFrom allFlags a
 
+/-- the name of the macro a `-D` value defines: the text before the first `=` or `(` -/
+def macroName (d : Arg) : Arg := d.takeWhile fun c => c != '=' && c != '('
+
+/-- `defines`: the definitions in force; `undefs`: the names given with `-U`, in command-line order -/
 structure Lists where
   defines : List Arg := []
   userDirs : List Arg := []
   systemDirs : List Arg := []
   files : List Arg := []
+  undefs : List Arg := []
 deriving DecidableEq, Repr, Inhabited
 
+/-- the definitions of `ds` that a later `-U` of each name in `us` leaves in force -/
+def surviving (ds us : List Arg) : List Arg := ds.filter fun d => !us.contains (macroName d)
+
 def Lists.add (l : Lists) : Flag → Arg → Lists
+  | .U, v => { l with defines := surviving l.defines [v], undefs := l.undefs ++ [v] }
   | .D, v => { l with defines := l.defines ++ [v] }
   | .I, v => { l with userDirs := l.userDirs ++ [v] }
   | .isystem, v => { l with systemDirs := l.systemDirs ++ [v] }
@@ -83,10 +99,13 @@ def lists (argv : List Arg) : Lists := scan none {} argv
 
 def extract (argv : List Arg) : Result := (lists argv).result
 
+/-- `a` read first, then `b`: the `-U` names of `b` cancel definitions of `a` -/
 def Lists.append (a b : Lists) : Lists :=
-  ⟨a.defines ++ b.defines, a.userDirs ++ b.userDirs, a.systemDirs ++ b.systemDirs, a.files ++ b.files⟩
+  ⟨surviving a.defines b.undefs ++ b.defines, a.userDirs ++ b.userDirs, a.systemDirs ++ b.systemDirs, a.files ++ b.files,
+   a.undefs ++ b.undefs⟩
 
 def Lists.get (l : Lists) : Flag → List Arg
+  | .U => l.undefs
   | .D => l.defines
   | .I => l.userDirs
   | .isystem => l.systemDirs
@@ -120,6 +139,11 @@ def Item.value? (g : Flag) : Item → Option Arg
 
 def renderAll (items : List Item) : List Arg := items.flatMap Item.render
 
+/-- the `-D` values of an item sequence that are in force at its end: those not followed by a `-U` of their macro -/
+def inForce : List Item → List Arg
+  | [] => []
+  | it :: rest => surviving (it.value? .D).toList (rest.filterMap (Item.value? .U)) ++ inForce rest
+
 /-! ### the recorded finding classes, as shapes of the command line
 
 `classes argv` scans the command line the way `extract` does and lists the shapes on which the
@@ -129,10 +153,10 @@ shape that no compiler accepts (`dangling`: a flag that needs a value is the las
 
 inductive Tag
   | D21        -- `-isystemDIR`, `-includeFILE` (also `-isystem=DIR`, `-include=FILE`)
-  | D22dash    -- separate-form value (of `-D`, `-I`, `-isystem`, `-include`, `-o`) with a leading dash, other than the lone `-`
+  | D22dash    -- separate-form value (of `-D`, `-U`, `-I`, `-isystem`, `-include`, `-o`) with a leading dash, other than the lone `-`
   | D22abbrev  -- a proper prefix of `-isystem` / `-include` (`-i`, `-is`, `-in`, ...)
-  | D23        -- `--`, or an attached value `--` (`-D--`, `-I--`)
-  | D36        -- `-D=...`, `-I=...`: the leading `=` of the attached value is dropped
+  | D23        -- `--`, or an attached value `--` (`-D--`, `-I--`, `-U--`)
+  | D36        -- `-D=...`, `-I=...`, `-U=...`: the leading `=` of the attached value is dropped
   | dangling   -- value flag (or `-o`) as last argument: rejected by every compiler
 deriving DecidableEq, Repr, Inhabited
 
@@ -150,8 +174,9 @@ def isProperPrefixOf (a b : Arg) : Bool := a.isPrefixOf b && a.length < b.length
 
 /-- shapes of a single argument standing in flag position -/
 def tagsOf1 (a : Arg) : List Tag :=
-  (if a = ddash || a = Flag.D.text ++ ddash || a = Flag.I.text ++ ddash then [Tag.D23] else []) ++
-  (if (Flag.D.text ++ ['=']).isPrefixOf a || (Flag.I.text ++ ['=']).isPrefixOf a then [Tag.D36] else []) ++
+  (if a = ddash || a = Flag.D.text ++ ddash || a = Flag.I.text ++ ddash || a = Flag.U.text ++ ddash then [Tag.D23] else []) ++
+  (if (Flag.D.text ++ ['=']).isPrefixOf a || (Flag.I.text ++ ['=']).isPrefixOf a || (Flag.U.text ++ ['=']).isPrefixOf a
+    then [Tag.D36] else []) ++
   (if isProperPrefixOf Flag.isystem.text a || isProperPrefixOf Flag.include.text a then [Tag.D21] else []) ++
   (if 2 ≤ a.length && (isProperPrefixOf a Flag.isystem.text || isProperPrefixOf a Flag.include.text) then [Tag.D22abbrev] else [])
 
